@@ -144,6 +144,10 @@ def _io_loop(loop: ast.While) -> Optional[str]:
             reads[st.targets[0].id] = st
     if not reads:
         return None
+    # `while line:` with `line = f.readline()` as the last assignment of the body: the test itself is the end-of-file exit
+    t = loop.test
+    if isinstance(t, ast.Name) and t.id in reads and any(st is reads[t.id] for st in loop.body):
+        return f"I/O loop: ends at end of file (`while {t.id}` with `{norm(reads[t.id])}` in the body)"
     for st in loop.body:
         if isinstance(st, ast.If) and isinstance(st.test, ast.UnaryOp) and isinstance(st.test.op, ast.Not):
             nm = names_in(st.test.operand)
